@@ -27,11 +27,12 @@ def fxNewHandlerForUpdate : List String :=
 def fxNewHandlerForCreate : List String :=
   ["exists(h.path)", "if[Exists(h.path)]{", "return", "}", "if{", "return", "}", "control_file(Lock)", "if{", "return", "}", "create_excl(h.path)", "if{", "return", "}"]
 
+/-- reviewed 2026-09-25 after fix 1713f77: only a handler that created the file itself removes it -/
 def fxHandlerClose : List String :=
-  ["if[h.closed]{", "return", "}", "if{", "close(h.fp)", "if{", "return", "}", "}", "exists(h.path)", "if[h.openType == ForCreate && Exists(h.path)]{", "remove(h.path)", "if{", "return", "}", "}", "cf_close(h.tempFile)", "if{", "return", "}", "cf_close(h.lockFile)", "if{", "return", "}", "cf_close(h.rlockFile)", "if{", "return", "}"]
+  ["if[h.closed]{", "return", "}", "if{", "close(h.fp)", "if{", "return", "}", "}", "exists(h.path)", "if[h.openType == ForCreate && h.created && Exists(h.path)]{", "remove(h.path)", "if{", "return", "}", "}", "cf_close(h.tempFile)", "if{", "return", "}", "cf_close(h.lockFile)", "if{", "return", "}", "cf_close(h.rlockFile)", "if{", "return", "}"]
 
 def fxHandlerCloseWithErrors : List String :=
-  ["if[h.closed]{", "return", "}", "if{", "close(h.fp)", "}", "exists(h.path)", "if[h.openType == ForCreate && Exists(h.path)]{", "remove(h.path)", "}", "cf_close(h.tempFile)", "cf_close(h.lockFile)", "cf_close(h.rlockFile)"]
+  ["if[h.closed]{", "return", "}", "if{", "close(h.fp)", "}", "exists(h.path)", "if[h.openType == ForCreate && h.created && Exists(h.path)]{", "remove(h.path)", "}", "cf_close(h.tempFile)", "cf_close(h.lockFile)", "cf_close(h.rlockFile)"]
 
 /-- reviewed 2026-09-24 after fix 305bbf1: the leading `if{ return }` is the refusal to commit under a cancelled
     context; nothing is written before it -/
